@@ -2,7 +2,10 @@ module github.com/edutko/decipher/verifharness
 
 go 1.20
 
-require github.com/edutko/decipher v0.0.0
+require (
+	github.com/edutko/decipher v0.0.0
+	golang.org/x/crypto v0.28.0
+)
 
 require (
 	github.com/edutko/cafegopher v0.1.0 // indirect
@@ -10,7 +13,6 @@ require (
 	github.com/edutko/putty-go v0.1.0 // indirect
 	github.com/google/uuid v1.6.0 // indirect
 	github.com/jfrog/go-rpm v1.0.1 // indirect
-	golang.org/x/crypto v0.28.0 // indirect
 	golang.org/x/sys v0.26.0 // indirect
 	software.sslmate.com/src/go-pkcs12 v0.5.0 // indirect
 )
